@@ -5,7 +5,9 @@ if [ "$1" = "-R" ]; then rev="-R"; shift; fi
 patch="$(readlink -f "$1")"; shift
 cd "$(dirname "$0")/.."
 git -C /repo apply $rev "$patch" || { echo "patch does not apply"; exit 2; }
-trap 'git -C /repo checkout -- . ; git -C /repo clean -fdq -- seeded_demo_test.go internal 2>/dev/null' EXIT
+# evidence files describe the unchanged tree: keep them out of these trial runs
+rm -rf .cache/evidence.keep; cp -r evidence .cache/evidence.keep
+trap 'rm -rf evidence; mv .cache/evidence.keep evidence; git -C /repo checkout -- . ; git -C /repo clean -fdq -- seeded_demo_test.go internal 2>/dev/null' EXIT
 for p in "$@"; do
   out=$(./scripts/check.sh "$p" quick 2>&1 | grep -E "^VIOLATION|^KNOWN|^C[0-9]+ quick" | cut -c1-260)
   echo "$out"
